@@ -15,10 +15,14 @@ Definition normalize_re (s : str) : str :=
 Fixpoint normalize (s : str) : str :=
   match s with
   | [] => []
-  | 13 :: 10 :: s' => 10 :: normalize s'
-  | 13 :: s' => 10 :: normalize s'
-  | 0 :: s' => 65533 :: normalize s'
-  | c :: s' => c :: normalize s'
+  | c :: s' =>
+      if c =? 13 then
+        10 :: match s' with
+              | d :: s'' => if d =? 10 then normalize s'' else normalize s'
+              | [] => []
+              end
+      else if c =? 0 then 65533 :: normalize s'
+      else c :: normalize s'
   end.
 
 (* ---- text_join (after the repair: recursive into image children) ------------- *)
